@@ -29,6 +29,14 @@ pub fn simple_beh(reg: &str, occ: &[&str], nframes: usize, nitems: usize) -> Beh
 
 /// As `simple_beh`, preceded by `ngecko` message-splitter blocks carrying Gecko codes (regime C only).
 pub fn simple_beh_gecko(reg: &str, occ: &[&str], nframes: usize, nitems: usize, ngecko: usize) -> Beh {
+	let ids: Vec<i64> = (0..nframes).map(|i| -123 + i as i64).collect();
+	simple_beh_ids(reg, occ, &ids, nitems, ngecko)
+}
+
+/// As `simple_beh_gecko` with the frame ids given (rollbacks: ids that go back; gaps: ids that jump ahead).
+/// Before 2.2 a frame is delimited by a change of id: consecutive equal ids must not be given for regime A.
+pub fn simple_beh_ids(reg: &str, occ: &[&str], ids: &[i64], nitems: usize, ngecko: usize) -> Beh {
+	let nframes = ids.len();
 	let v22 = reg != "A";
 	let v30 = reg == "C";
 	let mut chars: Vec<(u8, u8)> = vec![];
@@ -74,7 +82,7 @@ pub fn simple_beh_gecko(reg: &str, occ: &[&str], nframes: usize, nitems: usize, 
 		fin.gactual = (512 * (ngecko - 1) + 100) as u32;
 	}
 	for i in 0..nframes {
-		let id = -123 + i as i64;
+		let id = ids[i];
 		fin.ids.push(id as i32);
 		if v22 {
 			hist.push(ev("fs", id, 0, 0, hist.len() + 1));
